@@ -24,6 +24,7 @@ require (
 	github.com/mitchellh/colorstring v0.0.0-20190213212951-d06e56a500db // indirect
 	github.com/pbnjay/memory v0.0.0-20210728143218-7b4eea64cf58 // indirect
 	github.com/rivo/uniseg v0.4.4 // indirect
+	github.com/rrethy/ahocorasick v1.0.0 // indirect
 	github.com/schollz/progressbar/v3 v3.13.1 // indirect
 	github.com/shopspring/decimal v1.3.1 // indirect
 	github.com/tevino/abool/v2 v2.1.0 // indirect
